@@ -49,6 +49,16 @@ def world_leg(run, PROP, rng, tier, drv, har, n, monitors, gen_kw=None, clean_or
             if check_explain(run, where, inv, ex_reps[pos]):
                 stats["explain_consistent"] += 1
                 stats["explain_messages"] += sum(len(m) for _, m in inv.explained)
+                kinds = stats.setdefault("explain_kinds", {"input missing": 0, "no previous state known": 0, "manifest changed": 0, "none (clean or error)": 0})
+                for _, msgs in inv.explained:
+                    if not msgs:
+                        kinds["none (clean or error)"] += 1
+                    elif msgs[0].endswith(b" missing"):
+                        kinds["input missing"] += 1
+                    elif msgs[0].endswith(b"no previous state known"):
+                        kinds["no previous state known"] += 1
+                    elif msgs[0].endswith(b"manifest changed"):
+                        kinds["manifest changed"] += 1
         kind = inv.result.split(":")[0]
         stats["results"][kind] = stats["results"].get(kind, 0) + 1
         stats["commands"] += len(inv.started)
